@@ -770,4 +770,43 @@ theorem allEnabled_length (ws : List Worker) : ∀ (st : St), WF st → AllEnabl
     simp only [run, List.length_cons]
     omega
 
+/-! ### the `certsProcessed` counter is write-only for the workers: a leftover value is carried along unchanged -/
+
+/-- the same state with `c` more on the `certsProcessed` counter -/
+def addC (c : Nat) (st : St) : St := { st with counter := st.counter + c }
+
+theorem stepF_addC (c i : Nat) (st : St) : stepF i (addC c st) = addC c (stepF i st) := by
+  unfold stepF
+  simp only [addC]
+  split
+  · rfl
+  · rfl
+  · split <;> rfl
+  · split
+    · rfl
+    · split <;> rfl
+  · split
+    · split <;> rfl
+    · rfl
+
+theorem stepM_addC (c j : Nat) (st : St) : stepM j (addC c st) = addC c (stepM j st) := by
+  unfold stepM
+  simp only [addC]
+  split
+  · rfl
+  · rfl
+  · split
+    · simp only [St.mk.injEq, true_and, and_true]; omega
+    · by_cases h : allDone st.fs = true <;> simp [h]
+
+theorem step_addC (c : Nat) (w : Worker) (st : St) : step w (addC c st) = addC c (step w st) := by
+  cases w with
+  | f i => exact stepF_addC c i st
+  | m j => exact stepM_addC c j st
+
+theorem run_addC (c : Nat) (sched : List Worker) (st : St) : run (addC c st) sched = addC c (run st sched) := by
+  induction sched generalizing st with
+  | nil => rfl
+  | cons w ws ih => simp only [run, step_addC, ih]
+
 end ZV.C17
